@@ -136,7 +136,7 @@ class Scen(CompScenario):
 class Prop(PropBase):
     ID = "C16"
     tiers = {
-        "quick": {"runs": 400, "selftest_runs": 4},
+        "quick": {"runs": 480, "selftest_runs": 4},
         "thorough": {"runs": 9000, "selftest_runs": 32},
     }
     rule = ("one run = one (depth, layout) configuration driven for 80-240 cycles by a seeded phase plan (random / fill / "
